@@ -31,13 +31,25 @@ USE_RE = re.compile(r"^(\s*(?:pub\s+)?use\s+)std::collections::", re.M)
 def rewrite_collections(text, name, extra_rules=()):
     body = text.split("#[cfg(test)]")[0]
     out = USE_RE.sub(r"\1crate::vcoll::", text)
+
+    # nested form: `use std::{collections::{A, B}, ops::X, ...};`
+    def nested(m):
+        inner = m.group(2)
+        cm = re.search(r"collections::(\{[^}]*\}|\w+)\s*,?", inner)
+        if not cm:
+            return m.group(0)
+        rest = (inner[: cm.start()] + inner[cm.end():]).strip().rstrip(",")
+        keep = f"{m.group(1)}std::{{{rest}}};" if rest.strip() else ""
+        return f"{m.group(1)}crate::vcoll::{cm.group(1)};\n{keep}"
+
+    out = re.sub(r"(?m)^(\s*(?:pub\s+)?use\s+)std::\{([^;]*)\};", nested, out)
     # the copied crate's own unit tests are switched off in the shadow (their dev-dependencies are
     # not available there; native replays compile the shadow with cfg(test))
     out = re.sub(r"#\[cfg\((?:test|any\(test[^\]]*)\)\]", "#[cfg(any())]", out)
     for pat, rep in extra_rules:
         out = re.sub(pat, rep, out)
     rest = out.split("#[cfg(any())]")[0]
-    if "std::collections" in rest:
+    if "std::collections" in rest or re.search(r"(?<!vcoll::)\bcollections::", rest):
         raise ShadowError(f"{name}: a std::collections path outside a `use` line survives the rewrite; refusing to shadow")
     rules = ["`use std::collections::X` -> `use crate::vcoll::X`"] + [f"{p} -> {r}" for p, r in extra_rules]
     return out, rules, body != rest
@@ -90,3 +102,40 @@ thiserror = "1.0"
 [workspace]
 ''')
     shutil.copyfile(os.path.join(REPO, "Cargo.lock"), os.path.join(dst, "Cargo.lock")) if not os.path.exists(os.path.join(dst, "Cargo.lock")) else None
+
+
+def _common_manifest(dst, name, deps=""):
+    write_if_changed(os.path.join(dst, "Cargo.toml"), f'''[package]
+name = "{name}"
+version = "0.0.0"
+edition = "2021"
+publish = false
+
+[dependencies]
+thiserror = "1.0"
+{deps}
+[workspace]
+''')
+    if not os.path.exists(os.path.join(dst, "Cargo.lock")):
+        shutil.copyfile(os.path.join(REPO, "Cargo.lock"), os.path.join(dst, "Cargo.lock"))
+
+
+def _copy(src, dst):
+    write_if_changed(dst, open(src).read())
+
+
+def prepare_sync(engine):
+    """Single-file shadows of radicle/src/node/sync.rs and sync/announce.rs inside a shim crate that
+    provides the few names they import (NodeId as a 1-byte ordered id, Doc/Visibility for
+    PrivateNetwork::private_repo)."""
+    dst = os.path.join(SHADOW, "sync")
+    base = os.path.join(REPO, "crates", "radicle", "src", "node")
+    # sync.rs: collections rewrite + drop the `fetch` submodule (it needs FetchResults / Address)
+    text, _, _ = rewrite_collections(open(os.path.join(base, "sync.rs")).read(), "sync.rs",
+                                     extra_rules=[(r"(?m)^pub mod fetch;\n", ""), (r"(?m)^pub use fetch::[^\n]*\n", "")])
+    write_if_changed(os.path.join(dst, "src", "node", "sync.rs"), text)
+    text, _, _ = rewrite_collections(open(os.path.join(base, "sync", "announce.rs")).read(), "announce.rs")
+    write_if_changed(os.path.join(dst, "src", "node", "sync", "announce.rs"), text)
+    _copy(os.path.join(VERIF, "harness", "shadow", "vbits.rs"), os.path.join(dst, "src", "vcoll.rs"))
+    _copy(os.path.join(VERIF, "harness", "shadow", "sync_shim.rs"), os.path.join(dst, "src", "lib.rs"))
+    _common_manifest(dst, "verif-shadow-sync")
